@@ -44,9 +44,13 @@ theorem forall2_imp' {α β : Type} {R S : α → β → Prop} (h : ∀ a b, R a
 
 /-- the injection extended by the pair of cells allocated next on both sides -/
 def extBoth (β : CellRel) (σ σ' : State N) : CellRel :=
-  fun a b => β a b ∨ (a = σ.cells.length ∧ b = σ'.cells.length)
+  ⟨fun a b => β a b ∨ (a = σ.cells.length ∧ b = σ'.cells.length), σ.cells.length + 1, σ'.cells.length + 1⟩
 
-theorem le_extBoth {σ σ' : State N} : β.le (extBoth β σ σ') := fun _ _ hab => .inl hab
+theorem le_extBoth {σ σ' : State N} (h : SRel Q cx β σ σ') : β.le (extBoth β σ σ') :=
+  ⟨fun _ _ hab => .inl hab, Nat.le_succ_of_le h.front.1, Nat.le_succ_of_le h.front.2, fun a b hab => by
+    rcases hab with hab | ⟨rfl, rfl⟩
+    · exact .inl hab
+    · exact .inr h.front⟩
 theorem extBoth_new {σ σ' : State N} : extBoth β σ σ' σ.cells.length σ'.cells.length := .inr ⟨rfl, rfl⟩
 
 section
@@ -174,6 +178,7 @@ theorem SRel.setCell {a b : Nat} (hab : β a b) (v : Val N) : SRel Q cx β (σ.s
       simp only [hax, hby, false_and, if_false]
       exact h.cell hxy
   closures := h.closures
+  front := by simp only [State.setCell, length_listSet]; exact h.front
 
 theorem SRel.assignVar {D : List DName} {env env' : Env N} (he : LocOK cx β D env.locals env'.locals)
     {n : String} (hn : DName.ref n ∉ D) (hw : DName.wat n ∉ D) (v : Val N) :
@@ -209,7 +214,8 @@ theorem SRel.allocBoth (v : Val N) : SRel Q cx (extBoth β σ σ') (σ.allocCell
       rw [List.getElem?_append_left hb.1, List.getElem?_append_left hb.2]
       exact h.cell h1
     · simp
-  closures := Forall2.imp (fun _ _ hc => hc.mono le_extBoth) h.closures
+  closures := Forall2.imp (fun _ _ hc => hc.mono (le_extBoth h)) h.closures
+  front := by simp [extBoth, State.allocCell]
 
 theorem SRel.allocLeft (v : Val N) : SRel Q cx β (σ.allocCell v).2 σ' where
   globals := h.globals
@@ -226,6 +232,9 @@ theorem SRel.allocLeft (v : Val N) : SRel Q cx β (σ.allocCell v).2 σ' where
     rw [List.getElem?_append_left (h.bound h1).1]
     exact h.cell h1
   closures := h.closures
+  front := by
+    simp only [State.allocCell, List.length_append, List.length_singleton]
+    have := h.front; omega
 
 theorem SRel.allocRight (v : Val N) : SRel Q cx β σ (σ'.allocCell v).2 where
   globals := h.globals
@@ -242,6 +251,9 @@ theorem SRel.allocRight (v : Val N) : SRel Q cx β σ (σ'.allocCell v).2 where
     rw [List.getElem?_append_left (h.bound h1).2]
     exact h.cell h1
   closures := h.closures
+  front := by
+    simp only [State.allocCell, List.length_append, List.length_singleton]
+    have := h.front; omega
 end
 
 /-- `bindLocals` on both sides: the fresh cells are paired up -/
@@ -256,7 +268,81 @@ theorem SRel.bindLocals {σ σ' : State N} (h : SRel Q cx β σ σ') {D : List D
     simp only [Sem.bindLocals]
     have h1 := h.allocBoth (first vs)
     obtain ⟨β', hle, hs, henv⟩ := ih h1 (fun m hm => hns m (List.mem_cons_of_mem _ hm)) (List.drop 1 vs)
-      ((he.mono le_extBoth).cons n (hns n List.mem_cons_self) extBoth_new)
-    exact ⟨β', CellRel.le_trans le_extBoth hle, hs, henv⟩
+      ((he.mono (le_extBoth h)).cons n (hns n List.mem_cons_self) extBoth_new)
+    exact ⟨β', CellRel.le_trans (le_extBoth h) hle, hs, henv⟩
+
+/-! ### the frontier: one-sided cells -/
+
+/-- move the frontier up to the current allocation point: every cell that exists now and is unrelated
+stays unrelated in all later extensions -/
+def CellRel.bump (β : CellRel) (σ σ' : State N) : CellRel := ⟨β.r, σ.cells.length, σ'.cells.length⟩
+
+theorem SRel.le_bump {σ σ' : State N} (h : SRel Q cx β σ σ') : β.le (β.bump σ σ') :=
+  ⟨fun _ _ hab => hab, h.front.1, h.front.2, fun _ _ hab => .inl hab⟩
+
+theorem SRel.bump {σ σ' : State N} (h : SRel Q cx β σ σ') : SRel Q cx (β.bump σ σ') σ σ' :=
+  { globals := h.globals, tables := h.tables, trace := h.trace, ginv := h.ginv, finv := h.finv
+    inj := h.inj, bound := h.bound, cell := h.cell
+    closures := Forall2.imp (fun _ _ hc => hc.mono h.le_bump) h.closures
+    front := ⟨Nat.le_refl _, Nat.le_refl _⟩ }
+
+/-- a write to a cell that exists only on the right (unrelated) -/
+theorem SRel.setCellRight {σ σ' : State N} (h : SRel Q cx β σ σ') {c' : Nat} (hu : ∀ a, ¬ β a c') (v : Val N) :
+    SRel Q cx β σ (σ'.setCell c' v) :=
+  { globals := h.globals, tables := h.tables, trace := h.trace, ginv := h.ginv, finv := h.finv
+    inj := h.inj
+    bound := fun hxy => by simp only [State.setCell, length_listSet]; exact h.bound hxy
+    cell := fun {x y} hxy => by
+      simp only [State.setCell, getElem?_listSet]
+      have hne : ¬ c' = y := fun e => hu x (e ▸ hxy)
+      simp only [hne, false_and, if_false]
+      exact h.cell hxy
+    closures := h.closures
+    front := by simp only [State.setCell, length_listSet]; exact h.front }
+
+theorem SRel.setCellLeft {σ σ' : State N} (h : SRel Q cx β σ σ') {c : Nat} (hu : ∀ b, ¬ β c b) (v : Val N) :
+    SRel Q cx β (σ.setCell c v) σ' :=
+  { globals := h.globals, tables := h.tables, trace := h.trace, ginv := h.ginv, finv := h.finv
+    inj := h.inj
+    bound := fun hxy => by simp only [State.setCell, length_listSet]; exact h.bound hxy
+    cell := fun {x y} hxy => by
+      simp only [State.setCell, getElem?_listSet]
+      have hne : ¬ c = x := fun e => hu y (e ▸ hxy)
+      simp only [hne, false_and, if_false]
+      exact h.cell hxy
+    closures := h.closures
+    front := by simp only [State.setCell, length_listSet]; exact h.front }
+
+/-- the next cell to be allocated on the right is related to nothing (likewise on the left) -/
+theorem SRel.fresh_unrelatedRight {σ σ' : State N} (h : SRel Q cx β σ σ') : ∀ a, ¬ β a σ'.cells.length :=
+  fun _ hab => Nat.lt_irrefl _ (h.bound hab).2
+theorem SRel.fresh_unrelatedLeft {σ σ' : State N} (h : SRel Q cx β σ σ') : ∀ b, ¬ β σ.cells.length b :=
+  fun _ hab => Nat.lt_irrefl _ (h.bound hab).1
+
+/-- **One-sided local on the right** (e.g. the flag variable of `remove_continue`): allocate it, move
+the frontier past it; it is unrelated and stays so in every later extension (`CellRel.le.protectedRight`),
+so it can be written at any later time (`SRel.assignRight`). -/
+theorem SRel.allocRightProtected {σ σ' : State N} (h : SRel Q cx β σ σ') (v : Val N) :
+    let β1 := β.bump σ (σ'.allocCell v).2
+    β.le β1 ∧ SRel Q cx β1 σ (σ'.allocCell v).2 ∧ (σ'.allocCell v).1 < β1.L' ∧ ∀ a, ¬ β1 a (σ'.allocCell v).1 := by
+  have h1 := h.allocRight v
+  refine ⟨h1.le_bump, h1.bump, ?_, fun a hab => h.fresh_unrelatedRight a hab⟩
+  simp [CellRel.bump, State.allocCell]
+
+theorem SRel.assignRight {σ σ' : State N} (h : SRel Q cx β σ σ') {env' : Env N} {x : String} {c' : Nat}
+    (hl : lookupAssoc x env'.locals = some c') (hu : ∀ a, ¬ β a c') (v : Val N) :
+    SRel Q cx β σ (Sem.assignVar env' x v σ') := by
+  simp only [Sem.assignVar, hl]; exact h.setCellRight hu v
+
+theorem SRel.assignLeft {σ σ' : State N} (h : SRel Q cx β σ σ') {env : Env N} {x : String} {c : Nat}
+    (hl : lookupAssoc x env.locals = some c) (hu : ∀ b, ¬ β c b) (v : Val N) :
+    SRel Q cx β (Sem.assignVar env x v σ) σ' := by
+  simp only [Sem.assignVar, hl]; exact h.setCellLeft hu v
+
+/-- reading a one-sided local returns what was last written: the cell is untouched by related code only
+if it is unreachable from it, which is the caller's business; this lemma just exposes the cell -/
+theorem lookupVar_local {env : Env N} {x : String} {c : Nat} (hl : lookupAssoc x env.locals = some c)
+    (σ : State N) : Sem.lookupVar env x σ = σ.getCell c := by
+  simp only [Sem.lookupVar, hl]
 
 end DarkluaModel.Sem.Heap
